@@ -257,6 +257,23 @@ def mirror(facts: CppFacts):
         if sa != sb:
             res.add(f"orderer|{n}", f"LittleEndianByteOrderer::{n} and BigEndianByteOrderer::{n} are not mirror images: "
                     f"`{' '.join(sa)[:100]}` vs `{' '.join(sb)[:100]}`", a[0].file, a[0].line, n)
+    # the Null orderer (one-byte fields without a byte order) reports state exactly like the other two: Ok() and
+    # SizeInBytes() forward to the buffer.  A size that does not come from the buffer makes a field whose storage was
+    # clamped to nothing look complete, and every checked call then touches memory past the end.
+    nu = facts.by_class("NullByteOrderer")
+    if not nu:
+        raise AnalysisError("NullByteOrderer not found")
+    for n in ("Ok", "SizeInBytes"):
+        a = [m for m in le if m.name == n]
+        b = [m for m in nu if m.name == n]
+        res.instances += 1
+        if not a or not b:
+            res.add(f"orderer|Null|{n}|missing", f"NullByteOrderer or LittleEndianByteOrderer lacks {n}", "runtime/cpp/emboss_memory_util.h")
+            continue
+        if _skel(a[0]) != _skel(b[0]):
+            res.add(f"orderer|Null|{n}", f"NullByteOrderer::{n} is `{' '.join(_skel(b[0]))[:80]}` but the little/big-endian orderers use "
+                    f"`{' '.join(_skel(a[0]))[:80]}`: the three orderers must report the state of the same underlying buffer",
+                    b[0].file, b[0].line, f"NullByteOrderer::{n}")
     # ContiguousBuffer: Read/Write Little vs Big variants mirror each other
     cb = facts.by_class("ContiguousBuffer")
     for base in ("ReadLittleEndianUInt", "UncheckedReadLittleEndianUInt", "WriteLittleEndianUInt", "UncheckedWriteLittleEndianUInt"):
